@@ -1,34 +1,22 @@
 //! vharness — in-process correspondence harness.
 //! usage: vharness <mode>      stdin: `id<TAB>sexp...` per line      stdout: `id<TAB>result`
-mod c17;
-mod sexp;
+//! Property modules are src/p_*.rs (picked up by build.rs); each exports
+//! `dispatch(mode) -> Option<fn(&str) -> String>` and `special(mode) -> bool`.
+//! A panic inside a case function is caught and reported as the result `panic`.
+pub mod sexp;
+include!(concat!(env!("OUT_DIR"), "/mods.rs"));
 
 use std::io::{self, BufRead, Write};
 
 fn main() {
     std::panic::set_hook(Box::new(|_| {}));
     let mode = std::env::args().nth(1).unwrap_or_default();
-    let f: fn(&str) -> String = match mode.as_str() {
-        "c17-rt" => c17::roundtrip,
-        "c17-de" => c17::deserialize,
-        "c17-md" => c17::md_parse,
-        "ws-table" => {
-            // exhaustive table of char::is_whitespace over all scalar values
-            let out = io::stdout();
-            let mut out = out.lock();
-            for c in 0u32..0x110000 {
-                if let Some(ch) = char::from_u32(c) {
-                    if ch.is_whitespace() {
-                        writeln!(out, "{}", c).unwrap();
-                    }
-                }
-            }
-            return;
-        }
-        _ => {
-            eprintln!("unknown mode {mode}");
-            std::process::exit(2);
-        }
+    if special(&mode) {
+        return;
+    }
+    let Some(f) = dispatch(&mode) else {
+        eprintln!("unknown mode {mode}");
+        std::process::exit(2);
     };
     let stdin = io::stdin();
     let out = io::stdout();
